@@ -277,6 +277,9 @@ func (h *harness) runTable() {
 		h.runEntry(e)
 		h.r.Count("table_entries_enumerated_values", 1)
 	}
+	for _, e := range h.shapeEntries() {
+		h.runEntry(e)
+	}
 	h.r.Set("table_entries_undecided", h.undecided)
 }
 
